@@ -53,5 +53,6 @@ if keep:
                 meta[k] = old[k]
     except (OSError, ValueError):
         pass
-    shutil.copy(patch, os.path.join(d, "patch.diff"))
+    if os.path.abspath(patch) != os.path.abspath(os.path.join(d, "patch.diff")):
+        shutil.copy(patch, os.path.join(d, "patch.diff"))
     json.dump(meta, open(os.path.join(d, "meta.json"), "w"), indent=1)
